@@ -31,11 +31,11 @@ def cover_tasks(tier, seed):
                 tasks.append(dict(fn='check_offset_refused', kw=dict(nin=nin, rows=[[p, '0'] for p in rows])))
     rnd = random.Random(seed)
     planes4 = [''.join(p) for p in itertools.product('01-', repeat=4)]
-    for _ in range(150 if tier == 'quick' else 1500):
+    for _ in range(150 if tier == 'quick' else 6000):
         k = rnd.randint(1, 4)
         outv = '1'
         tasks.append(dict(fn='check_cover', kw=dict(nin=4, rows=[[rnd.choice(planes4), outv] for _ in range(k)])))
-    for _ in range(40 if tier == 'quick' else 400):
+    for _ in range(40 if tier == 'quick' else 2000):
         k = rnd.randint(1, 3)
         tasks.append(dict(fn='check_cover', kw=dict(nin=3, rows=[[rnd.choice([''.join(p) for p in itertools.product('01-', repeat=3)]), '1'] for _ in range(k)])))
     return tasks
